@@ -730,7 +730,7 @@ pub fn run() {
     ctx.set("distinct_nontrivial", all.runs - all.by_count.get(&0).cloned().unwrap_or(0));
     ctx.set("rule", "schedule = (program, multiset of trigger edges); deviation 0: no trigger; 1: one trigger before every clock edge 0..T of the run; 2: every ordered pair of trigger edges in a 120-edge window; every schedule is executed edge by edge on the real machine and compared with the uninterrupted twin; distinct_nontrivial = schedules in which the routine was entered at least once");
     ctx.set("exhaustive", true);
-    ctx.set("bounds", format!("{} programs (prologue + every body sequence of length <= {} over 25 instruction kinds x ISRs {{RETI, counter, MUL+CALL, re-entrant}}, + enable-bit-clear and EI-less variants, second lives after a cpu/master reset, a STOP in the main program followed by continue; programs that are not transparent by construction left out); deviation bound 2; + runs with 400 / 40 / 200 presses for the counter routine (pairs on {} of the programs)", fam.len(), if quick { 2 } else { 3 }, if quick { "1/4" } else { "all" }));
+    ctx.set("bounds", format!("{} programs (prologue + every body sequence of length <= {} over 26 instruction kinds x ISRs {{RETI, counter, MUL+CALL, re-entrant}}, + enable-bit-clear and EI-less variants, second lives after a cpu/master reset, a STOP in the main program followed by continue; programs that are not transparent by construction left out); deviation bound 2; + runs with 400 / 40 / 200 presses for the counter routine (pairs on {} of the programs)", fam.len(), if quick { 2 } else { 3 }, if quick { "1/4" } else { "all" }));
     ctx.set("schedules", all.runs);
     ctx.set("programs_checked", all.programs);
     ctx.set("programs_left_out_not_transparent_by_construction", all.ill_formed);
